@@ -297,7 +297,13 @@ Inductive expr :=
    row ids: OrderError for the first dirty row), then looks at the matching rows in row order *)
 | ECount (idx : Z) (key : expr)             (* len(T.lookupRecords(K=key)) *)
 | EOne (idx : Z) (key : expr)               (* T.lookupOne(K=key).id *)
-| ESum (idx : Z) (key : expr) (col : Z).    (* sum(r.col for r in T.lookupRecords(K=key)) *)
+| ESum (idx : Z) (key : expr) (col : Z)     (* sum(r.col for r in T.lookupRecords(K=key)) *)
+| EIfId (ks : list Z) (a b : expr)          (* a if $id in ks else b: row-dependent formulas *)
+(* ONE access that requires SEVERAL rows of a column (Table._get_col_obj_subset -> _use_node(node, rel, rows) ->
+   _recompute_step(require_rows = rows)): first every required row must be clean - OrderError for the first dirty
+   one in ASCENDING row order -, only then the values are read, in list order *)
+| ESumRows (sets : list (Z * list Z)) (col : Z)   (* sum($L.col), L a RefList data column, inlined per row *)
+| ESumMatched (idx : Z) (key : expr) (col : Z).   (* sum(T.lookupRecords(K=key).col) *)
 
 Definition zero_division : Z := 1.
 
@@ -317,6 +323,31 @@ Fixpoint read_sum (col : Z) (rs : list Z) (acc : Z) (k : Z -> itree) (h : err ->
   | [] => k acc
   | r :: t => Read (col, r) (fun v => match v with VInt z => read_sum col t (acc + z) k h | VErr x => h x end)
   end.
+
+(* phase one of a multi-row access: the rows are required (read, value ignored) in ascending order *)
+Fixpoint require_rows (col : Z) (rs : list Z) (k : itree) : itree :=
+  match rs with
+  | [] => k
+  | r :: t => Read (col, r) (fun _ => require_rows col t k)
+  end.
+
+Fixpoint insert_z (x : Z) (l : list Z) : list Z :=
+  match l with
+  | [] => [x]
+  | y :: t => if x <=? y then x :: l else y :: insert_z x t
+  end.
+Definition sort_z (l : list Z) : list Z := fold_right insert_z [] l.
+
+Fixpoint assoc_rows (sets : list (Z * list Z)) (row : Z) : list Z :=
+  match sets with
+  | [] => []
+  | (r, l) :: t => if r =? row then l else assoc_rows t row
+  end.
+
+(* Engine._use_node(node, relation, row_ids) with an EMPTY list of rows (the attribute of an empty record set) means
+   "no particular rows", which _recompute_step treats as ALL rows of the column being required (known finding
+   C18-empty-recordset-requires-whole-column: a spurious dependency, hence spurious circular references) *)
+Definition required_of (rows ms : list Z) : list Z := match ms with [] => rows | _ => ms end.
 
 (* continuation-passing compilation; [h] is the innermost exception handler; [rows] are the table's rows *)
 Fixpoint compile (rows : list Z) (e : expr) (row : Z) (k : Z -> itree) (h : err -> itree) : itree :=
@@ -339,6 +370,13 @@ Fixpoint compile (rows : list Z) (e : expr) (row : Z) (k : Z -> itree) (h : err 
       compile rows key row (fun kv => read_index idx rows kv [] (fun ms => k (hd 0 ms)) h) h
   | ESum idx key col =>
       compile rows key row (fun kv => read_index idx rows kv [] (fun ms => read_sum col ms 0 k h) h) h
+  | EIfId ks a b => if existsb (Z.eqb row) ks then compile rows a row k h else compile rows b row k h
+  | ESumRows sets col =>
+      let rs := assoc_rows sets row in require_rows col (required_of rows (sort_z rs)) (read_sum col rs 0 k h)
+  | ESumMatched idx key col =>
+      compile rows key row
+        (fun kv => read_index idx rows kv []
+                     (fun ms => require_rows col (required_of rows ms) (read_sum col ms 0 k h)) h) h
   end.
 
 Definition formula_tree (rows : list Z) (e : expr) (row : Z) : itree := compile rows e row Ret Raise.
@@ -376,6 +414,8 @@ Fixpoint no_try (e : expr) : bool :=
   | EIf c a b => no_try c && no_try a && no_try b
   | ETry _ _ | ETryOther _ _ => false
   | ECount _ key | EOne _ key | ESum _ key _ => no_try key
+  | EIfId _ a b => no_try a && no_try b
+  | ESumRows _ _ | ESumMatched _ _ _ => false   (* two-phase reads are outside the syntactic class [strict] *)
   end.
 
 (* no handler that catches CircularRefError *)
@@ -387,6 +427,8 @@ Fixpoint no_cre_catch (e : expr) : bool :=
   | ETry _ _ => false
   | ETryOther a _ => no_cre_catch a
   | ECount _ key | EOne _ key | ESum _ key _ => no_cre_catch key
+  | EIfId _ a b => no_cre_catch a && no_cre_catch b
+  | ESumRows _ _ | ESumMatched _ _ _ => false
   end.
 
 (* what the harness checks for one recorded update loop: the recorded events are a run of the model from
@@ -555,7 +597,10 @@ Fixpoint below_level (lv : Z -> nat) (bound : nat) (e : expr) : bool :=
   | EIf c a b => below_level lv bound c && below_level lv bound a && below_level lv bound b
   | ETry a _ | ETryOther a _ => below_level lv bound a
   | ECount idx key | EOne idx key => (lv idx <? bound)%nat && below_level lv bound key
-  | ESum idx key col => (lv idx <? bound)%nat && (lv col <? bound)%nat && below_level lv bound key
+  | ESum idx key col | ESumMatched idx key col =>
+      (lv idx <? bound)%nat && (lv col <? bound)%nat && below_level lv bound key
+  | EIfId _ a b => below_level lv bound a && below_level lv bound b
+  | ESumRows _ col => (lv col <? bound)%nat
   end.
 Definition levelled (lv : Z -> nat) (cols : list (Z * expr)) : bool :=
   forallb (fun ce => below_level lv (lv (fst ce)) (snd ce)) cols.
